@@ -633,6 +633,16 @@ impl<T: FftNum> FftPlannerSse<T> {
     }
 }
 
+// Verification hooks: report the plan for a length as text, without constructing the FFT
+#[cfg(feature = "verif_hooks")]
+impl<T: FftNum> FftPlannerSse<T> {
+    /// Returns the `Debug` text of the recipe this planner designs for `len`, and the recipe's own length
+    pub fn verif_plan_report(&mut self, len: usize, _direction: FftDirection) -> (String, usize) {
+        let recipe = self.design_fft_for_len(len);
+        (format!("{:?}", recipe), recipe.len())
+    }
+}
+
 #[cfg(test)]
 mod unit_tests {
     use super::*;
